@@ -4,6 +4,7 @@
     answers) and every body decoder verdict [dec]. *)
 From Coq Require Import NArith List Bool.
 From P9V Require Import gen.ConstGen Frame.Model Frame.ListN Frame.FrameProofs Frame.Instantiate.
+Require P9V.Codec.GenCheck P9V.gen.CodecGen P9V.Codec.Spec9P.
 Import ListNotations.
 Open Scope N_scope.
 
@@ -162,6 +163,32 @@ Print Assumptions C02_deliver_sent.
 Theorem C02_registry : forall tag typ, typ < 256 -> spec_lookup tag typ = framegen_lookup tag typ.
 Proof. exact registries_agree. Qed.
 Print Assumptions C02_registry.
+
+(** ... and that protocol table IS what go2coq reads from messages.go (CodecGen: the encode/decode
+    programs of all registered types), for every type number; this puts the link from the decoder used
+    above and in the differential's property predicate to the source into C02's own cone *)
+Theorem C02_spec_is_source : forall t, t < 256 ->
+  match P9V.Codec.GenCheck.gen_find t P9V.gen.CodecGen.gen_msgs with
+  | None => P9V.Codec.Spec9P.spec_find t P9V.Codec.Spec9P.spec = None
+  | Some g =>
+      exists s b dl,
+        P9V.Codec.Spec9P.spec_find t P9V.Codec.Spec9P.spec = Some s /\
+        P9V.Codec.Spec9P.bind_find t P9V.Codec.Spec9P.binding = Some b /\
+        P9V.Codec.GenCheck.gm_go g = P9V.Codec.Spec9P.b_go b /\
+        CF.rename_ml (P9V.Codec.Spec9P.to_spec (P9V.Codec.Spec9P.b_map b)) (P9V.Codec.GenCheck.gm_enc g) = P9V.Codec.Spec9P.sm_layout s /\
+        P9V.Codec.GenCheck.layout_of (P9V.Codec.GenCheck.gm_dec g) = Some dl /\
+        CF.rename_ml (P9V.Codec.Spec9P.to_spec (P9V.Codec.Spec9P.b_map b)) dl = P9V.Codec.Spec9P.sm_layout s /\
+        CF.ml_ok (P9V.Codec.Spec9P.sm_layout s) = true /\
+        P9V.Codec.GenCheck.gm_fixed_size g = option_map N.of_nat (CF.fixed_size (P9V.Codec.GenCheck.gm_enc g))
+  end.
+Proof. exact P9V.Codec.GenCheck.layout_is_spec. Qed.
+Print Assumptions C02_spec_is_source.
+
+(** "never panics": in these models the clause holds BY CONSTRUCTION -- [outcome] has no panic
+    constructor, recv and the decoders are total Gallina functions -- so it is not a theorem about the
+    Go code.  Its observed half is the harness: every recv call runs under recover, and the thorough
+    tier feeds random and mutated streams to the real recv and to a live Server.Handle for minutes;
+    a Go panic or hang is a violation with the stream as replay. *)
 
 (** the hypotheses are satisfiable: an 11-byte frame of type 120 (Tclunk) with tag 5 *)
 Example C02_wd_example : well_delimited 8192 [11; 0; 0; 0; 120; 5; 0; 1; 0; 0; 0].
